@@ -6,6 +6,7 @@
    Streams::compactify (the Section variables [exec_stream_instr] / [finish_streams] of RunExec.run),
    over the success of the two signing calls and over the data serializer. *)
 From Aqua Require Import Base Json Air Trace Handler Values Scalars Lens Exec RunExec RunTop CodesSpec CodesProofs.
+From Aqua Require Stream.
 Open Scope N_scope.
 Open Scope list_scope.
 
@@ -60,6 +61,11 @@ Qed.
 Theorem C02_internal_error_branch : C02_internal_error_branch_stmt.
 Proof. exact internal_error_branch. Qed.
 
+(* the local half of `compactify_total`: a compactification plan whose positions all point at Ap / stream
+   Call states of the result trace runs to the end (no GenerationCompactificationError) *)
+Theorem C02_compactify_sufficient : C02_compactify_sufficient_stmt.
+Proof. exact compactify_sufficient. Qed.
+
 (* the decisive source lines are the ones the model mirrors (re-read from /repo on every run) *)
 Theorem C02_source_tie : C02_source_tie_stmt.
 Proof. exact source_tie. Qed.
@@ -102,6 +108,14 @@ Proof.
   intros x _. exists x. reflexivity.
 Qed.
 
+Definition C02_handler : handler cid := meet_ap_end cid (handler_from cid [] []) [7].
+Example C02_compactify_nonvacuous :
+  (exists h', Stream.run_plan (update_generation cid) C02_handler {| Stream.cp_updates := [(0, 3)]; Stream.cp_crash := None |}
+              = Stream.CompactOk h' /\ result_trace cid h' = [SAp [3]]) /\
+  (exists e, Stream.run_plan (update_generation cid) C02_handler {| Stream.cp_updates := [(1, 3)]; Stream.cp_crash := None |}
+              = Stream.CompactErr e).
+Proof. split; eexists; [split|]; vm_compute; reflexivity. Qed.
+
 Print Assumptions C02_codes.
 Print Assumptions C02_codes_general.
 Print Assumptions C02_fail_stages.
@@ -111,4 +125,5 @@ Print Assumptions C02_code_classes.
 Print Assumptions C02_run_glue.
 Print Assumptions C02.
 Print Assumptions C02_internal_error_branch.
+Print Assumptions C02_compactify_sufficient.
 Print Assumptions C02_source_tie.
